@@ -360,6 +360,16 @@ func (c *Context) Quo(d, x, y *Decimal) (Condition, error) {
 				// setExponent.
 				nd = unknownNumDigits
 			}
+		} else {
+			// The result is subnormal and setExponent will round it to
+			// Etiny, discarding at least one digit of the quotient. Append
+			// a non-zero sticky digit standing for the remainder so that
+			// this single rounding sees an inexact discarded part that
+			// compares with one half exactly as the true one does.
+			d.Coeff.Mul(&d.Coeff, bigTen)
+			d.Coeff.Add(&d.Coeff, bigOne)
+			adjExp10++
+			nd++
 		}
 	}
 
